@@ -117,7 +117,7 @@ def func_hashes(funcs):
             name = getattr(f, "__qualname__", getattr(f, "__name__", str(f)))
             modn = getattr(f, "__module__", "?")
             out.append({"function": f"{modn}.{name}", "sha256": hashlib.sha256(src.encode()).hexdigest()[:16],
-                        "file": os.path.relpath(inspect.getsourcefile(f), "/repo")})
+                        "file": os.path.relpath(inspect.getsourcefile(f), os.environ.get("SYMX_REPO", "/repo"))})
         except Exception as e:  # pragma: no cover
             out.append({"function": str(f), "error": repr(e)})
     return out
